@@ -291,3 +291,39 @@ def cli_bitmap_problems(fmt, viewbox, res, by_flag, result):
     if any(p != want for p in result["ppems"]):
         bad.append(("strike ppem", result["ppems"], want))
     return bad
+
+
+# ---- variable builds go through write_variable_font: keep_glyph_names must reach post there too
+
+
+def gen_vf(rng, i=None):
+    i = rng.randrange(2) if i is None else i
+    return {"keep_names": i % 2 == 1}
+
+
+def run_vf(keep_names):
+    from fontTools import ttLib
+
+    repo_src = next((p for p in sys.path if p.endswith("/src") and os.path.isdir(os.path.join(p, "nanoemoji"))), "/repo/src")
+    with tempfile.TemporaryDirectory(prefix="verif_vf_") as d:
+        for name, (x, w) in (("thin", (30, 20)), ("bold", (20, 45))):
+            os.makedirs(os.path.join(d, name))
+            open(os.path.join(d, name, "emoji_u1f600.svg"), "w").write(
+                f'<svg xmlns="http://www.w3.org/2000/svg" viewBox="0 0 100 100"><rect x="{x}" y="20" width="{w}" height="50" fill="#C02040"/></svg>'
+            )
+        open(os.path.join(d, "c.toml"), "w").write(
+            'output_file = "VF.ttf"\ncolor_format = "glyf_colr_1"\n'
+            + ("keep_glyph_names = true\n" if keep_names else "")
+            + '[axis.wght]\nname = "Weight"\ndefault = 400\n[master.thin]\nstyle_name = "Thin"\nsrcs = ["thin/*.svg"]\n[master.thin.position]\nwght = 400\n'
+            + '[master.bold]\nstyle_name = "Bold"\nsrcs = ["bold/*.svg"]\n[master.bold.position]\nwght = 700\n'
+        )
+        env = dict(os.environ, PYTHONPATH=repo_src, PATH="/venv/bin:" + os.environ.get("PATH", ""))
+        r = subprocess.run([sys.executable, "-m", "nanoemoji.nanoemoji", "--build_dir", os.path.join(d, "build"), "c.toml"], cwd=d, env=env, capture_output=True, text=True, timeout=900)
+        out = {"exit": r.returncode, "stderr": (r.stdout + r.stderr)[-600:]}
+        p = os.path.join(d, "build", "VF.ttf")
+        if r.returncode == 0 and os.path.exists(p):
+            f = ttLib.TTFont(p)
+            out["post"] = f["post"].formatType
+            out["has_fvar"] = "fvar" in f
+            out["cmap"] = sorted(f.getBestCmap())
+    return out
